@@ -324,6 +324,19 @@ fn loopback_burst(n: usize, size: usize, upstream: bool) -> Result<Option<u64>, 
         std::thread::sleep(Duration::from_micros(300));
     }
     if all.len() < total {
+        // A transport that gave up on the connection is not a matter of timing.
+        let server_has_client = {
+            let w = server.world_mut();
+            let mut q = w.query::<&ConnectedClient>();
+            q.iter(w).count() == 1
+        };
+        let client_up = client.world().resource::<RepliconClient>().is_connected();
+        if !server_has_client || !client_up {
+            return Err(format!(
+                "the connection was dropped while {} of {total} messages were still outstanding (server sees client: {server_has_client}, client connected: {client_up})",
+                total - all.len()
+            ));
+        }
         // arrival timing is not owned: inconclusive, never an alarm
         return Ok(None);
     }
